@@ -765,7 +765,7 @@ def pbkdf2_hmac(digest: bytes, secret: bytes, salt: bytes, rounds: int, keylen=N
         # hashlib's pbkdf2 can't be used.
         return _pbkdf2_hmac_builtin(digest_info, secret, salt, rounds, keylen)
 
-    if digest_info is not lookup_hash(digest_info.name):
+    if digest_info.const is not lookup_hash(digest_info.name).const:
         # caller passed a constructor of their own which merely reports a standard name
         # (e.g. blake2b with a non-default digest_size); hashlib would go by the name.
         return _pbkdf2_hmac_builtin(digest_info, secret, salt, rounds, keylen)
